@@ -252,8 +252,18 @@ class QGen:
                     try:
                         seed = self.call(self.seq(env, d - 2, self.any_elem(), True), "Count")
                         self.f("Aggregate_computed_seed")
+                        # ... bare, or inside an expression (a product, a sum with a member, a negative literal beside it)
+                        form = R.choice(["bare", "bare", "times", "plus", "minus_lit"])
+                        if form != "bare":
+                            self.f("Aggregate_computed_seed_in_expression")
+                            other = self.num(env, 0, want, True)[0] if form == "plus" else None
+                            seed = {"times": f"{seed} * 100", "plus": f"({other} + {seed})", "minus_lit": f"({seed} - 1)"}[form]
                     except CannotGenerate:
                         pass
+                elif R.random() < 0.25:
+                    # a seed that is not a plain literal node: a negative number, a small constant expression
+                    seed = R.choice(["-1", "(0 - 2)", "(1 + 1)", "-0.5" if want == "float" else "-3"])
+                    self.f("Aggregate_non_literal_constant_seed")
                 body = R.choice([f"{a} + {x}", f"{a} + {x} * 2", f"{a} - {x}", f"{x} + {a}"])
                 if want == "float" and R.random() < 0.3:
                     body = f"{a} + {x} / 2.0"
